@@ -91,6 +91,7 @@ def common_calls(ctx):
         "return_parser_if_captured": lambda c, a, k: None,
         "handle_completions": lambda c, a, k: None,
         "previous_config.get": lambda c, a, k: None,
+        "recreate_branches": lambda c, a, k: (c.event("copy", a[0]), cfg(expr_of(a[0])))[1],  # contract of recreate_branches (C08 unit): an equal, fresh copy
     }
 
 
@@ -129,6 +130,7 @@ def po_post(ctx, st, result):
     ctx.oblige("post", "result==common(ov(applied(ov(defaults+env, cfg_base)), applied(cfg_obj)))", expr_of(result) == want, note=str(expr_of(result)))
     ap = [e for e in ctx.events if e[0] == "call" and e[1] == "_apply_actions"]
     ctx.oblige("post", "the-object-is-applied-with-the-base-configuration-as-previous-values", len(ap) == 2 and expr_of(ap[1][3].get("prev_cfg")) == ("applied", start))
+    ctx.oblige("frame", "the-caller's-object-itself-is-never-handed-to-_apply_actions(which adapts values in place): a copy is", len(ap) == 2 and ap[1][2][0] is not st.env["cfg_obj"] and expr_of(ap[1][2][0]) == "OBJ")
 
 
 def ps_setup(ctx, faults=False):
